@@ -119,4 +119,14 @@ Theorem C15_source_new_optimizer_is_sound : forall G fuel,
   exists o, py_opt_init fuel (Z.of_nat omen_optimizer_max_length) = Ok o /\ oinv G omen_optimizer_max_length o cempty.
 Proof. exact (fun G => opt_init_translated G omen_optimizer_max_length). Qed.
 
+(* save_session / load_session are pickle I/O and not translated; what the model says about them
+   (mc_save = (target_level, cur_ip, cur_len, parse_tree, first_guess), mc_load puts them back) is
+   pinned to the source: the order of the pickle.dump calls and of the pickle.load assignments
+   (codes 1..5 in that order; harness/consts/zz_omen_gen.py also checks that load_session rebuilds
+   the GuessStructure from the loaded cursors with the constructor call _increase_ip_for_target
+   uses, then overwrites parse_tree and first_guess) *)
+Theorem C15_source_pickle_field_order :
+  omen_save_order = [1; 2; 3; 4; 5]%N /\ omen_load_order = [1; 2; 3; 4; 5]%N.
+Proof. split; reflexivity. Qed.
+
 Print Assumptions C15_source_continuation.
